@@ -42,7 +42,7 @@ def run(ctx: Ctx):
                   f"{k} is listed in _SPECIAL_PROPERTIES but is neither null-admitting, literal nor an envelope field: "
                   "it would be written as null when unset", P_TYPES)
     ctx.check(len(table) == len(tset), "special-table-exact", "_SPECIAL_PROPERTIES:duplicates",
-              "_SPECIAL_PROPERTIES contains duplicates", P_TYPES)
+              "the special-property set contains duplicates", P_TYPES)
     # (b) defaults
     nfields = 0
     for c in t.attrs_classes():
